@@ -604,7 +604,9 @@ func callSSA(i *interpreter, caller *frame, callpos token.Pos, fn *ssa.Function,
 			if i.mode&EnableTracing != 0 {
 				fmt.Fprintln(os.Stderr, "\t(external)")
 			}
-			return fi.ext(fr, args)
+			if r := fi.ext(fr, args); r != (notHandled{}) {
+				return r
+			}
 		}
 		if fn.Blocks == nil {
 			unmodelled("no code for function: %s", fi.name)
